@@ -102,7 +102,16 @@ def j_tree(t):
 
 
 def py_tree(j):
-    return Tree(py_node(j['node']), metadata=dict((k, v) for k, v in j.get('metadata', [])))
+    md = dict((k, v) for k, v in j.get('metadata', []))
+    how = j.get('build')
+    if how == 'later':
+        # a tree built without metadata whose metadata is filled in afterwards (in place)
+        t = Tree(py_node(j['node']))
+        t.metadata.update(md)
+        return t
+    if how == 'default' and not md:
+        return Tree(py_node(j['node']))            # the constructor's own default
+    return Tree(py_node(j['node']), metadata=md)
 
 
 def j_triple(t):
